@@ -6,11 +6,13 @@
     was delivered exactly to [own_verdict s t cs]: the emitting thread's current collector [c] (whatever
     get_default hands out at that moment) if [accepts s c cs] — c answered `always` for cs, or `sometimes` and its
     dynamic check is true right now — and to nobody otherwise; for a [Probe] step (`enabled!`) that the answer is
-    that same verdict.  [fx] ranges over both variants of dispatch.rs (as in /repo, and after fixes/F1.patch),
+    that same verdict.  [fx] ranges over both variants of dispatch.rs (the repaired one that /repo has now, and the
+    one from before fix aa353f7 — C01 judges against whatever get_default hands out, so it holds for both),
     [static_max] over every compile-time cap, [conf] over every assignment of filters to collectors;
     [wf_collector] is the property's own side condition (self-consistent filter, hint a true upper bound). *)
-From Coq Require Import NArith List.
-From TV Require Import Dispatch.Model Dispatch.Proofs_C01.
+From Coq Require Import NArith List String.
+From TV Require Import Dispatch.Model Dispatch.Shape Dispatch.Source Dispatch.Proofs_C01 Dispatch.Proofs_Shape.
+From TVGen Require Import Gen_dispatch.
 Import ListNotations.
 Local Open Scope N_scope.
 
@@ -73,20 +75,103 @@ Print Assumptions C01_structured_filters_wf.
 (** Non-vacuity: two collectors, a first hit, a re-evaluation by a later collector, a dynamic flip, a drop. *)
 Theorem C01_nonvacuous :
   (forall c, wf_collector (conf_of_list ex_filters c)) /\
-  map fst (run false (Some TRACE) (conf_of_list ex_filters) init ex_history) =
+  map fst (run src_fx (Some TRACE) (conf_of_list ex_filters) init ex_history) =
   [ ONew 0; OUnit; OEmit None None;
     ONew 1; OUnit; OEmit (Some (DCol 1)) (Some 1);
     OUnit; OEmit (Some (DCol 1)) None;
     OUnit ].
-Proof. exact (conj ex_wf ex_observations). Qed.
+Proof. exact (conj ex_wf (ex_observations src_fx)). Qed.
 Print Assumptions C01_nonvacuous.
 
 (** The side condition is needed: a hint that is not an upper bound makes MAX_LEVEL suppress a delivery the
     collector's own filter accepts. *)
 Theorem C01_hint_condition_is_needed :
   hint_sound (mk_fspec 5 [0] 0 3) = false /\
-  let s := final false (Some TRACE) (conf_of_list lying) init [New; Open 0 (DCol 0)] in
-  snd (step false (Some TRACE) (conf_of_list lying) s (Emit 0 ex_cs)) = OEmit None None /\
+  let s := final src_fx (Some TRACE) (conf_of_list lying) init [New; Open 0 (DCol 0)] in
+  snd (step src_fx (Some TRACE) (conf_of_list lying) s (Emit 0 ex_cs)) = OEmit None None /\
   own_verdict (Some TRACE) (conf_of_list lying) s 0 ex_cs = Some 0.
-Proof. exact lying_hint_breaks_it. Qed.
+Proof. exact (lying_hint_breaks_it src_fx). Qed.
 Print Assumptions C01_hint_condition_is_needed.
+
+(** "The process-wide shortcuts may only skip work", one by one, after ANY history: a cached `never` means the
+    emitting thread's current collector — whoever it is, whatever happened to other collectors before — rejects the
+    callsite; a cached `always` means it accepts it; a level above the global maximum means it rejects it. *)
+Theorem C01_shortcuts_only_skip :
+  forall fx static_max conf, (forall c, wf_collector (conf c)) ->
+  forall h cs t,
+  let s := final fx static_max conf init h in
+  (cache s cs = Some never -> own_verdict static_max conf s t cs = None) /\
+  (cache s cs = Some always -> forall c, current s t = DCol c -> accepts conf s c cs = true) /\
+  (lvl_le (cs_lvl cs) (max_level s) = false -> own_verdict static_max conf s t cs = None).
+Proof. exact shortcuts_only_skip. Qed.
+Print Assumptions C01_shortcuts_only_skip.
+
+(** Dispatch::none() as the current default (or no default at all): nothing is delivered, whatever the caches say. *)
+Theorem C01_none_dispatch_discards :
+  forall static_max conf s t cs, current s t = DNone -> own_verdict static_max conf s t cs = None.
+Proof. exact none_dispatch_discards. Qed.
+Print Assumptions C01_none_dispatch_discards.
+
+(** span!, event! and enabled! callsites are judged alike: for the structured filters the verdict depends on
+    level and target only, not on the callsite's kind or identity. *)
+Theorem C01_verdict_ignores_kind :
+  forall static_max l s t id1 id2 lvl tgt k1 k2,
+  own_verdict static_max (conf_of_list l) s t {| cs_id := id1; cs_lvl := lvl; cs_tgt := tgt; cs_kind := k1 |} =
+  own_verdict static_max (conf_of_list l) s t {| cs_id := id2; cs_lvl := lvl; cs_tgt := tgt; cs_kind := k2 |}.
+Proof. exact structured_verdict_ignores_kind. Qed.
+Print Assumptions C01_verdict_ignores_kind.
+
+(** * The hand-written model against the source as READ ON THIS RUN (coq/gen/Gen_dispatch.v is regenerated from
+      macros.rs, lib.rs, callsite.rs, collect.rs, level_filters.rs by translators/dispatch_shape.py). *)
+
+(** Every shape recognised; every callsite-declaring arm of event! / span! / enabled! carries the recognised guard
+    `level_enabled!(lvl) && { interest = CALLSITE.interest(); !interest.is_never() } && CALLSITE.is_enabled(interest)`;
+    is_enabled is `interest.is_always() || get_default(|d| d.enabled(meta))`; callsite::register computes and stores
+    before it pushes; register_dispatch pushes, then rebuilds; rebuild_interest retains the registrars that upgrade,
+    takes the maximum hint with `>` from OFF and TRACE for a missing hint, recomputes every callsite, stores the maximum. *)
+Theorem C01_source_recognised :
+  gen_guard_unrecognised = [] /\ guard_shape_ok gen_guard = true.
+Proof. exact (conj source_recognised source_guard_ok). Qed.
+Print Assumptions C01_source_recognised.
+
+(** level_enabled! as read (its relations and operands) is the model's [level_enabled]. *)
+Theorem C01_source_level_guard :
+  forall static_max s cs,
+  interp_level_guard (g_level_enabled gen_guard) static_max s cs = level_enabled static_max s cs.
+Proof. exact source_level_guard. Qed.
+Print Assumptions C01_source_level_guard.
+
+(** Interest::and as read is the model's [iand]. *)
+Theorem C01_source_interest_and :
+  forall a b, interp_iand (g_iand gen_guard) a b = Some (iand a b).
+Proof. exact source_iand. Qed.
+Print Assumptions C01_source_interest_and.
+
+(** The interest byte: set_interest's encoding is decoded back by interest() and by register(); the initial byte
+    (0xFF) means "register first"; no other byte reads as a cached interest; and the named constants are that
+    encoding.  So the model's [cache : callsite -> option interest] is exact. *)
+Theorem C01_source_interest_byte :
+  (forall i, meaning_of_byte gen_guard (byte_of_interest gen_guard i) = BCached i) /\
+  (forall i, reload_of_byte gen_guard (byte_of_interest gen_guard i) = i) /\
+  meaning_of_byte gen_guard (empty_byte gen_guard) = BRegister /\
+  (forall b i, meaning_of_byte gen_guard b = BCached i -> b = byte_of_interest gen_guard i) /\
+  g_bytes gen_guard = (byte_of_interest gen_guard never, byte_of_interest gen_guard sometimes,
+                       byte_of_interest gen_guard always, empty_byte gen_guard).
+Proof. exact source_interest_byte. Qed.
+Print Assumptions C01_source_interest_byte.
+
+(** rebuild_interest's running maximum as read is the step of the model's [max_hint]. *)
+Theorem C01_source_max_hint_step :
+  forall conf m c,
+  interp_max_step (g_rebuild gen_guard) conf m c =
+  Some (if frank m <? frank (hint_or_trace (conf c)) then hint_or_trace (conf c) else m).
+Proof. exact source_max_step. Qed.
+Print Assumptions C01_source_max_hint_step.
+
+(** STATIC_MAX_LEVEL (the model's [static_max]) of the two harness builds, from level_filters.rs's feature table. *)
+Theorem C01_source_static_max :
+  src_static_max [] = 5 /\ src_static_max ["max_level_info"%string] = 3 /\
+  src_static_max ["release_max_level_off"%string] = 5 /\
+  src_static_max ["max_level_debug"%string; "max_level_warn"%string] = 2.
+Proof. exact source_static_max. Qed.
+Print Assumptions C01_source_static_max.
